@@ -69,26 +69,47 @@ def verify_all(items, prop, jobs):
     ctxm = mp.get_context("fork")
     with cf.ProcessPoolExecutor(max_workers=max(1, jobs), mp_context=ctxm) as ex:
         pending = set()
+        key_of = {}
+
+        def submit(key, pre, first):
+            f_ = ex.submit(_path_task, (key[0], key[1], prop, pre, first))
+            key_of[f_] = key
+            pending.add(f_)
+
+        def drop_queued(key, why):
+            # paths of that function which are still waiting for a worker are not explored any more: the function
+            # is outside reach on this tree (nothing about it is proved; exit 3), the check itself stays bounded in time
+            acc[key]["outside_reach"] = acc[key].get("outside_reach") or why
+            for f_ in [f_ for f_ in pending if key_of.get(f_) == key]:
+                if f_.cancel():
+                    pending.discard(f_)
+
         for qn, ci, _p in items:
-            pending.add(ex.submit(_path_task, (qn, ci, prop, [], True)))
             counts[(qn, ci)] = 1
             started[(qn, ci)] = time.time()
+            submit((qn, ci), [], True)
         while pending:
-            done, pending = cf.wait(pending, return_when=cf.FIRST_COMPLETED)
+            done, pending_ = cf.wait(pending, return_when=cf.FIRST_COMPLETED)
+            pending.clear()
+            pending.update(pending_)
             for fut in done:
+                if fut.cancelled():
+                    continue
                 key, d, new = fut.result()
                 acc[key] = engine.merge_reports(acc.get(key), d)
                 if d["error"] or d["outside_reach"]:
                     continue
+                if acc[key].get("outside_reach"):
+                    continue
                 for pre in new:
                     if counts[key] >= MAX_PATHS_PER_FUNCTION:
-                        acc[key]["outside_reach"] = f"more than {MAX_PATHS_PER_FUNCTION} paths"
+                        drop_queued(key, f"more than {MAX_PATHS_PER_FUNCTION} paths")
                         break
                     if time.time() - started[key] > FUNCTION_BUDGET_S:
-                        acc[key]["outside_reach"] = f"time budget {FUNCTION_BUDGET_S}s exhausted"
+                        drop_queued(key, f"time budget {FUNCTION_BUDGET_S}s exhausted")
                         break
                     counts[key] += 1
-                    pending.add(ex.submit(_path_task, (key[0], key[1], prop, pre, False)))
+                    submit(key, pre, False)
     return [acc[(qn, ci)] for qn, ci, _p in items if (qn, ci) in acc]
 
 
